@@ -865,6 +865,24 @@ struct Runner : IRunner {
         Node<K>& ref = *top;
         if (route == "ref") {
             h.v = PV<K>(ref);
+        } else if (route == "refup") {
+            // virtual_ptr<Base> built from an lvalue whose static type is a derived class (the next node of the chain)
+            if constexpr (K + 1 < kNodes) {
+                Node<K + 1>& dref = *top;
+                h.v = PV<K>(dref);
+            } else {
+                r.err = 9;
+                return;
+            }
+        } else if (route == "sh_up") {
+            if constexpr (K + 1 < kNodes) {
+                std::shared_ptr<Node<K + 1>> sp = top;
+                h.v = SV<K>(sp);
+                h.shared = true;
+            } else {
+                r.err = 9;
+                return;
+            }
         } else if (route == "final") {
             h.v = final_virtual_ptr<P>(ref);
         } else if (route == "sh_lv") {
